@@ -13,6 +13,19 @@ pub struct Case {
     pub kinds: Vec<u8>,
     pub with_entry: bool,
     pub validate: Validate,
+    /// module-scope declarations that are not resources, as (position in the resource sequence, kind):
+    /// private / workgroup variables, constants, overrides, structs declared between the bindings
+    pub others: Vec<(u32, u8)>,
+}
+
+fn other_decl(k: usize, kind: u8) -> String {
+    match kind % 5 {
+        0 => format!("var<private> prv_{k}: f32;"),
+        1 => format!("var<workgroup> wgv_{k}: array<atomic<u32>, 4>;"),
+        2 => format!("const K_{k}: u32 = 3u;"),
+        3 => format!("override ov_{k}: f32 = 1.0;"),
+        _ => format!("struct S_{k} {{ a: f32, }}"),
+    }
 }
 
 const KINDS: usize = 6;
@@ -37,10 +50,22 @@ pub fn render(c: &Case) -> String {
     let mut s = String::new();
     let mut uses = Vec::new();
     for (i, (g, b)) in c.pairs.iter().enumerate() {
+        for (k, (pos, kind)) in c.others.iter().enumerate() {
+            if *pos as usize == i {
+                s.push_str(&other_decl(k, *kind));
+                s.push('\n');
+            }
+        }
         let (d, u) = decl(c.kinds[i], &format!("res_{i}"), *g, *b);
         s.push_str(&d);
         s.push('\n');
         uses.push(u);
+    }
+    for (k, (pos, kind)) in c.others.iter().enumerate() {
+        if *pos as usize >= c.pairs.len() {
+            s.push_str(&other_decl(k, *kind));
+            s.push('\n');
+        }
     }
     if c.with_entry {
         s.push_str("@compute @workgroup_size(1)\nfn main() {\n    var acc: f32 = 0.0;\n");
@@ -269,13 +294,20 @@ pub fn case_from_choices(ch: &mut Ch) -> Case {
         3 => Validate::Default,
         _ => Validate::Bits(ch.raw()),
     };
-    Case { pairs, kinds, with_entry: ch.flip(), validate }
+    let with_entry = ch.flip();
+    let mut others = Vec::new();
+    if ch.chance(3, 8) {
+        for _ in 0..ch.usize_range(1, 3) {
+            others.push((ch.range(0, n as u32), ch.below(5) as u8));
+        }
+    }
+    Case { pairs, kinds, with_entry, validate, others }
 }
 
 fn case_json(c: &Case, choices: Option<&[u32]>) -> serde_json::Value {
     json!({
         "kind": "c11",
-        "pairs": c.pairs, "kinds": c.kinds, "with_entry": c.with_entry,
+        "pairs": c.pairs, "kinds": c.kinds, "with_entry": c.with_entry, "others": c.others,
         "validate": match c.validate { Validate::Off => json!("off"), Validate::All => json!("all"), Validate::Default => json!("default"), Validate::Bits(b) => json!(b) },
         "choices": choices,
         "wgsl": render(c),
@@ -291,7 +323,8 @@ fn case_from_json(v: &serde_json::Value) -> Case {
         serde_json::Value::Number(n) => Validate::Bits(n.as_u64().unwrap() as u32),
         _ => Validate::Off,
     };
-    Case { pairs, kinds, with_entry: v["with_entry"].as_bool().unwrap_or(false), validate }
+    let others = v["others"].as_array().map(|a| a.iter().map(|p| (p[0].as_u64().unwrap_or(0) as u32, p[1].as_u64().unwrap_or(0) as u8)).collect()).unwrap_or_default();
+    Case { pairs, kinds, with_entry: v["with_entry"].as_bool().unwrap_or(false), validate, others }
 }
 
 pub fn eval_replay(sut: &dyn Sut, v: &serde_json::Value) -> Result<(), String> {
@@ -320,7 +353,7 @@ pub fn run(sut: &dyn Sut, tier: Tier) -> ! {
         let pairs: Vec<(u32, u32)> = seq.iter().map(|i| universe[*i]).collect();
         for (with_entry, validate) in [(false, Validate::Off), (true, Validate::All)] {
             let kinds: Vec<u8> = (0..pairs.len()).map(|i| ((i * 7 + seq.iter().sum::<usize>()) % KINDS) as u8).collect();
-            let c = Case { pairs: pairs.clone(), kinds, with_entry, validate };
+            let c = Case { pairs: pairs.clone(), kinds, with_entry, validate, others: vec![] };
             enumerated += 1;
             if let Err(m) = judge(sut, &c, &mut stats) {
                 first_fail = Some((c, m));
@@ -360,10 +393,10 @@ pub fn run(sut: &dyn Sut, tier: Tier) -> ! {
         let c = case_from_choices(&mut ch);
         judge(sut, &c, st)
     };
-    let mut found = run_inprocess(seed, cases, (8, 64), &mut stats, &mut j);
+    let mut found = run_inprocess(seed, cases, (8, 160), &mut stats, &mut j);
     if found.is_none() && tier == Tier::Thorough {
         // coverage-guided search over the same choice sequences (libFuzzer, oracle in the target)
-        found = fuzz_choices(&run, &mut stats, (8, 64), 300, 12, 50_000, &mut j);
+        found = fuzz_choices(&run, &mut stats, (8, 160), 300, 12, 50_000, &mut j);
     }
     if let Some(f) = found {
         let mut ch = Ch::new(&f.choices);
